@@ -446,6 +446,8 @@ __CPROVER_ensures((__CPROVER_return_value == 0 || __CPROVER_return_value == -1) 
 __CPROVER_ensures(TRK_IN_PROGRESS(track) ==> (__CPROVER_return_value == -1 && xv_errno == EAGAIN))
 /* PO[C13] track_get_connected_fd.exhausted_reports_errno_of_last_failed_attempt */
 __CPROVER_ensures(track->state == track_state_bad ==> (__CPROVER_return_value == -1 && xv_errno == track->badness_reason && XV_ERRNO_OK(xv_errno)))
+/* PO[C13] track_get_connected_fd.exhausted_stays_exhausted: a track that has run out of addresses stays so, with the same errno, and does nothing */
+__CPROVER_ensures(__CPROVER_old(track->state) == track_state_bad ==> (track->state == track_state_bad && TRK_UNCHANGED_BUT_STATE(track)))
 /* PO[C13] track_get_connected_fd.success_iff_connected */
 __CPROVER_ensures((__CPROVER_return_value == 0) == (track->state == track_state_finished))
 /* PO[C13,C08] track_get_connected_fd.hands_over_the_connected_descriptor: the descriptor of the address that connected, open, no longer registered, no longer the track's; scope and options snapshot with it */
